@@ -203,6 +203,18 @@ def run_harness(build, spec, tier):
     return res
 
 
+def inject_playback(path, modname, code):
+    """Insert the generated #[test] right after the opening line of the harness module (so that it
+    sees the module's private harness functions)."""
+    src = open(path).read()
+    m = re.search(r"^mod\s+%s\s*\{[^\n]*\n" % re.escape(modname), src, re.M)
+    if not m:
+        raise EncodingError("playback: module %s not found in %s" % (modname, path))
+    u = src.index("use super::*;", m.end()) + len("use super::*;")
+    src = src[:u] + "\n" + code + "\n" + src[u:]
+    open(path, "w").write(src)
+
+
 def playback(build, spec, res, outdir):
     """Re-run a failing harness with concrete playback, inject the generated test and run it natively.
     Returns (reproduced: bool|None, replay_path|None, note)."""
@@ -210,16 +222,15 @@ def playback(build, spec, res, outdir):
     log = os.path.join(build.logs, name + ".playback.log")
     cmd = ["cargo", "kani", "--target-dir", build.target] + KANI_FLAGS + \
           ["-Z", "concrete-playback", "--concrete-playback=print", "--harness", build.fq(name), "--exact"]
-    rc, to, dt = _run(cmd, build.crate, log, spec.get("timeout", 600) * 2, spec.get("mem", 12))
+    # trace generation needs the unsliced formula: give it more room than the verdict run
+    rc, to, dt = _run(cmd, build.crate, log, spec.get("timeout", 600) * 3, max(32, spec.get("mem", 12) * 3))
     text = open(log, errors="replace").read()
     code, tname = extract_playback_test(text)
     if not code:
         return None, None, "no concrete-playback test was produced"
     _fq, _base, target_rel, modname = build.hidx[name]
     p = os.path.join(build.crate, target_rel)
-    wrapped = "\n#[cfg(kani)]\nmod verif_playback_%s {\n    use super::%s::*;\n%s\n}\n" % (name, modname, code)
-    with open(p, "a") as f:
-        f.write(wrapped)
+    inject_playback(p, modname, code)
     os.makedirs(outdir, exist_ok=True)
     rpath = os.path.join(outdir, name + ".playback.rs")
     with open(rpath, "w") as f:
